@@ -27,6 +27,7 @@ META = {
                      "the model callback does not mutate its input"],
     "assumptions": ["n_samples >= 1", "feature_subset is an iterable of keys present in the background"],
 }
+META["explanation"] += ' Also COPY (copy / pickle hooks of the imputers keep every attribute and the sharing of the storage) and the type of what the strategy field holds.'
 MIN_INSTANCES = {"MERGE": 3, "KEYS": 3, "COUNT": 3, "NOMUT": 3, "VALUE": 3, "COPY": 3}
 
 
